@@ -14,6 +14,7 @@ import (
 	"path/filepath"
 	"sort"
 	"strings"
+	"sync"
 
 	"github.com/restic/restic/internal/backend"
 	"github.com/restic/restic/internal/data"
@@ -112,7 +113,49 @@ func c32PackTerm(ctx context.Context, repo *repository.Repository, id restic.ID,
 	return fmt.Sprintf("%d%%N %s", n.get(id.String()), coqList(items)), nil
 }
 
-func c32IndexTerm(ctx context.Context, repo *repository.Repository, id restic.ID, n *c32Names) (string, error) {
+// c32Graph walks the source trees below roots: tree id -> (subtrees, data blobs of its files).
+func c32Graph(ctx context.Context, repo *repository.Repository, roots restic.IDs, n *c32Names) (string, error) {
+	var mu sync.Mutex
+	seen := restic.NewIDSet()
+	var items []string
+	err := data.StreamTrees(ctx, repo, roots, restic.NoopCounter, func(id restic.ID) bool {
+		mu.Lock()
+		defer mu.Unlock()
+		if seen.Has(id) {
+			return true
+		}
+		seen.Insert(id)
+		return false
+	}, func(id restic.ID, err error, nodes data.TreeNodeIterator) error {
+		if err != nil {
+			return err
+		}
+		var subs, datas []string
+		for item := range nodes {
+			if item.Error != nil {
+				return item.Error
+			}
+			if item.Node.Type == data.NodeTypeDir && item.Node.Subtree != nil {
+				mu.Lock()
+				subs = append(subs, fmt.Sprintf("%d%%N", n.get(item.Node.Subtree.String())))
+				mu.Unlock()
+			}
+			for _, b := range item.Node.Content {
+				mu.Lock()
+				datas = append(datas, fmt.Sprintf("%d%%N", n.get(b.String())))
+				mu.Unlock()
+			}
+		}
+		mu.Lock()
+		items = append(items, fmt.Sprintf("(%d%%N, (%s, %s))", n.get(id.String()), coqList(subs), coqList(datas)))
+		mu.Unlock()
+		return nil
+	})
+	sort.Strings(items)
+	return coqList(items), err
+}
+
+func c32IndexTerm(ctx context.Context, repo *repository.Repository, id restic.ID, n *c32Names, known map[int]bool) (string, error) {
 	buf, err := repo.LoadUnpacked(ctx, restic.IndexFile, id)
 	if err != nil {
 		return "", err
@@ -124,13 +167,16 @@ func c32IndexTerm(ctx context.Context, repo *repository.Repository, id restic.ID
 	var items []string
 	for pb := range idx.Values() {
 		items = append(items, fmt.Sprintf("(%d%%N, %d%%N)", n.get(pb.Pack.String()), n.get(pb.Blob.ID.String())))
+		if known != nil {
+			known[n.get(pb.Blob.ID.String())] = true
+		}
 	}
 	sort.Strings(items)
 	return coqList(items), nil
 }
 
 // c32State decodes the whole destination: packs, index entries, snapshots with their needs.
-func c32State(ctx context.Context, e *venv, src *repository.Repository, n *c32Names) (string, error) {
+func c32State(ctx context.Context, e *venv, src *repository.Repository, n *c32Names, known map[int]bool) (string, error) {
 	repo, err := e.openRepo(ctx)
 	if err != nil {
 		return "", err
@@ -148,7 +194,7 @@ func c32State(ctx context.Context, e *venv, src *repository.Repository, n *c32Na
 		return "", err
 	}
 	err = repo.List(ctx, restic.IndexFile, func(id restic.ID, _ int64) error {
-		t, err := c32IndexTerm(ctx, repo, id, n)
+		t, err := c32IndexTerm(ctx, repo, id, n, known)
 		if err != nil {
 			return err
 		}
@@ -201,7 +247,7 @@ func c32Trace(ctx context.Context, e *venv, mods []vop, n *c32Names) (string, []
 			ops = append(ops, "(DPack "+t+")")
 			hs = append(hs, "pack")
 		case o.Op == "Save" && o.Type == backend.IndexFile && perr == nil:
-			t, err := c32IndexTerm(ctx, repo, id, n)
+			t, err := c32IndexTerm(ctx, repo, id, n, nil)
 			if err != nil {
 				return "", nil, "", err
 			}
@@ -283,6 +329,7 @@ func c32Scenario(c *vctx, rng *vrng, num int) error {
 		}
 	}
 	steps := 2 + rng.intn(2)
+	twin := "" // the previous step left a "twin" in the source: same metadata and persistent id as a copied snapshot, other tree
 	for step := 0; step < steps; step++ {
 		srcRepo, err := src.openRepo(ctx)
 		if err != nil {
@@ -298,7 +345,7 @@ func c32Scenario(c *vctx, rng *vrng, num int) error {
 		// subset of snapshots by id, or all
 		var args []string
 		chosen := srcSnaps
-		if rng.chance(35) && len(srcSnaps) > 1 {
+		if twin == "" && rng.chance(35) && len(srcSnaps) > 1 {
 			chosen = nil
 			for _, s := range srcSnaps {
 				if rng.chance(55) {
@@ -318,7 +365,8 @@ func c32Scenario(c *vctx, rng *vrng, num int) error {
 		if err != nil {
 			return err
 		}
-		state0, err := c32State(ctx, dst, srcRepo, names)
+		known := map[int]bool{}
+		state0, err := c32State(ctx, dst, srcRepo, names, known)
 		if err != nil {
 			return fmt.Errorf("state0: %w", err)
 		}
@@ -381,15 +429,77 @@ func c32Scenario(c *vctx, rng *vrng, num int) error {
 		}
 		dst1 := append(append([]c32Snap(nil), dst0...), new1...)
 		dst2 := append(append([]c32Snap(nil), dst1...), new2...)
-		term := fmt.Sprintf("C32m.mk %s %s %s %s %s %s %s %s", q(ordered), q(dst0), state0, trace1, q(dst1), coqList(needs), trace2, q(dst2))
+		var roots restic.IDs
+		for _, sn := range chosen {
+			roots = append(roots, sn.tree)
+		}
+		graph, err := c32Graph(ctx, srcRepo, roots, names)
+		if err != nil {
+			return fmt.Errorf("graph: %w", err)
+		}
+		var kn []int
+		for k := range known {
+			kn = append(kn, k)
+		}
+		sort.Ints(kn)
+		kns := make([]string, len(kn))
+		for i, k := range kn {
+			kns[i] = fmt.Sprintf("%d%%N", k)
+		}
+		term := fmt.Sprintf("C32m.mk %s %s %s %s %s %s %s %s %s %s", q(ordered), q(dst0), state0, trace1, q(dst1), coqList(needs), trace2, q(dst2), graph, coqList(kns))
 		kind := fmt.Sprintf("%s-step%d", dstMode, min(step, 2))
 		if len(args) > 0 {
 			kind += "-subset"
 		}
+		if twin != "" {
+			kind += "-twin-" + twin
+			c.Hist("twin=" + twin)
+		}
+		twin = ""
 		c.Hist(fmt.Sprintf("new-snapshots=%d", min(len(new1), 3)))
 		c.Case(kind, len(new1) > 0, len(trace1)/20+len(ordered), term,
 			fmt.Sprintf("srcv1=%v dst=%s step=%d src=%d chosen=%d dst0=%d -> new=%d trace=[%s] second-run=[%s]", srcV1, dstMode, step, len(srcSnaps), len(chosen), len(dst0), len(new1), h1, h2))
-		// evolve the source for the next step: a new snapshot sharing data
+		// evolve the source for the next step. (1) sometimes a twin of an already copied snapshot: rewrite
+		// keeps time/host/user/paths and sets Original; with --forget (or after removing the "rewrite" tag)
+		// all compared metadata equal the copied snapshot's and only the tree differs
+		if step+1 < steps && len(ordered) > 0 && (num < 2 && step == 0 || rng.chance(40)) {
+			victim := ordered[rng.intn(len(ordered))]
+			excl := rng.pick("sub", "f*", "g*")
+			if num == 0 {
+				excl = "sub"
+			}
+			if num%2 == 0 {
+				if _, eb, err := src.cli("rewrite", "--forget", "--exclude", excl, victim.id); err != nil {
+					return fmt.Errorf("rewrite: %w (%s)", err, eb)
+				}
+				twin = "rewrite-forget"
+			} else {
+				if _, eb, err := src.cli("rewrite", "--exclude", excl, victim.id); err != nil {
+					return fmt.Errorf("rewrite: %w (%s)", err, eb)
+				}
+				r2, err := src.openRepo(ctx)
+				if err != nil {
+					return err
+				}
+				after, err := c32Snapshots(ctx, r2)
+				if err != nil {
+					return err
+				}
+				known := map[string]bool{}
+				for _, x := range srcSnaps {
+					known[x.id] = true
+				}
+				for _, x := range after {
+					if !known[x.id] {
+						if _, eb, err := src.cli("tag", "--remove", "rewrite", x.id); err != nil {
+							return fmt.Errorf("tag: %w (%s)", err, eb)
+						}
+						twin = "rewrite-untag"
+					}
+				}
+			}
+		}
+		// (2) a new snapshot sharing data
 		c32Write(dataDir, rng, 1+rng.intn(3))
 		if _, _, err := src.cli("backup", dataDir, "--host", rng.pick("h1", "h2")); err != nil {
 			return fmt.Errorf("backup: %w", err)
@@ -403,7 +513,7 @@ func c32Scenario(c *vctx, rng *vrng, num int) error {
 func engineC32(c *vctx) error {
 	c.Header("Model.C32m", "C32m.case", "C32m.check_case")
 	c.Preamble("Import C32m.")
-	n := c.n(5, 60)
+	n := c.n(5, 24)
 	for i := 0; i < n; i++ {
 		// the harness runs inside init() (main goroutine locked to its OS thread); copy uses iter.Pull2
 		// coroutines, which must be created and resumed with the same thread-lock state: use a fresh goroutine
